@@ -47,15 +47,18 @@ UserNext ==
   \/ Can("env") /\ \E v \in {"e0", "e1"} : v # env /\ Scr(<<"env", v>>) /\ ChangeEnv(v)
   \/ Can("build") /\ \E gl \in Goals : Scr(<<"build", gl>>) /\ StartBuild(gl)
   \/ Can("clean") /\ \E gl \in Goals : Scr(<<"clean", gl>>) /\ StartClean(gl)
-  \/ Can("crash") /\ Can("build") /\ \E n \in 1..3 : Scr(<<"crashinit", n>>) /\ CrashInInit(n)
+  \/ Can("crash") /\ Can("build") /\ \E n \in 1..3 : CrashInInit(n)
+        /\ (Script = <<>> \/ (g.nuser + 1 = Len(Script) /\ Script[g.nuser + 1][1] \in {"build", "clean"}))
 
+\* with a Script, only the last scripted invocation can be killed
+CrashOK == "crash" \in UserActs /\ (Script = <<>> \/ g.nuser = Len(Script))
 RunNext ==
   /\ mode # "idle"
   /\ \/ (Free \/ MainEnabled) /\ MainStep
      \/ \E t \in DOMAIN tl : Sched(t) /\ AnyThreadStep(t)
-     \/ "crash" \in UserActs /\ Crash
-     \/ "crash" \in UserActs /\ \E t \in DOMAIN tl, k \in 1..3, torn \in BOOLEAN : Sched(t) /\ CrashInExec(t, k, torn)
-     \/ "crash" \in UserActs /\ CrashInSave
+     \/ CrashOK /\ Crash
+     \/ CrashOK /\ \E t \in DOMAIN tl, k \in 1..3, how \in {"empty", "torn", "full"} : Sched(t) /\ CrashInExec(t, k, how)
+     \/ CrashOK /\ CrashInSave
 
 Next == UserNext \/ RunNext
 Spec == Init /\ [][Next]_vars
